@@ -130,7 +130,15 @@ def job_cli(job: dict) -> dict:
     root.mkdir(parents=True, exist_ok=True)
     files = projects.build(job["n"], job["cross"], job.get("layout", "flat"))
     drive.write_tree(root, dict(files))
-    (root / ".thailint.yaml").write_text(projects.BASE_CONFIG)
+    extra = []
+    if job.get("explicit_config"):
+        # the settings arrive through --config <file outside the discovered locations>; the project's own file says
+        # something else (the --config file must win in both modes, in the parent and in every worker)
+        (root / ".thailint.yaml").write_text(projects.BASE_CONFIG + "nesting:\n  max_nesting_depth: 9\n")
+        (root.parent / "alt.yaml").write_text(projects.ALT_CONFIG)
+        extra = ["--config", str(root.parent / "alt.yaml")]
+    else:
+        (root / ".thailint.yaml").write_text(projects.BASE_CONFIG)
     rels = [rel for rel, _ in files]
     if job["target"] == "dir":
         targets = ["."]
@@ -144,7 +152,7 @@ def job_cli(job: dict) -> dict:
         targets = rels[:half] + sorted({r.split("/")[0] for r in rels[half:] if "/" in r})
     out = {}
     for mode in ("seq", "par"):
-        argv = [job["cmd"], "--format", "json"] + (["--parallel"] if mode == "par" else []) + targets
+        argv = [job["cmd"], "--format", "json"] + extra + (["--parallel"] if mode == "par" else []) + targets
         r = drive.cli_subprocess(argv, cwd=root)
         viol, total = drive.parse_json_violations(r["stdout"])
         if viol is not None:
@@ -350,10 +358,13 @@ def run(chk) -> None:
                           [(20, "dir"), (20, "files"), (15, "dir"), (41, "files"), (20, "dirs"), (34, "dirs"), (20, "mixed"), (40, "mixed")]):
             cjobs.append({"cmd": cmd, "n": n, "cross": cross_for(n), "target": target,
                           "layout": "samename" if (len(cjobs) % 2 or target in ("dirs", "mixed")) else "flat",
+                          "explicit_config": target in ("dir", "files") and len(cjobs) % 3 == 0,
                           "root": str(scratch_root() / f"c07cli-{len(cjobs)}" / "proj")})
     cres = pool.run_jobs(job_cli, cjobs, nproc=max(2, NCPU // 2), timeout=300)
     for job, res in zip(cjobs, cres):
         case = {"cmd": job["cmd"], "n": job["n"], "target": job["target"], "kind": "cli"}
+        if job.get("explicit_config"):
+            case["explicit_config"] = True
         if not res.ok:
             raise MachineryError(f"C07 cli job failed: {res.error}")
         o = res.value
